@@ -249,6 +249,8 @@ def check_readers_validate(ck):
 
 
 def check(ck):
+    from .memo import check_new_memo_tables
+    ck.run(check_new_memo_tables, ck, "C08.M1", ('storage_base', 'storage_filesystem'))
     ck.run(check_write_order, ck)
     ck.run(check_pointer_trust, ck)
     ck.run(check_recovery, ck)
